@@ -1,7 +1,7 @@
 /-
   C04 — every signature the library produces is valid, canonical and deterministic.
 
-  Property theorems (helpers: `Proofs/ECCGroup.lean`, `Proofs/ECCDer.lean`, `Proofs/Signer.lean`).
+  Property theorems (helpers: `Proofs/ECCGroup.lean`, `Proofs/ECCDer.lean`, `Proofs/ECCSigner.lean`).
   The signing model (`Model/ECC.lean`: `signECDSA`, `signSchnorr`, `signSigHash`) mirrors
   `ecc.SignECDSA` + `ekliptic.SignECDSA`, `ecc.SignSchnorr`, `signer.SignSigHash` over the curve
   record `C : CurveOps` and the record `S : SigOps` of hash-based functions (RFC 6979 nonce, the
@@ -14,10 +14,11 @@
 -/
 import BtcVerif.Proofs.ECCGroup
 import BtcVerif.Proofs.ECCDer
+import BtcVerif.Proofs.ECCSigner
 import BtcVerif.Proofs.CurveAbsToy
 
 namespace BtcVerif.Props.C04
-open BtcVerif BtcVerif.Model.ECC BtcVerif.Proofs BtcVerif.Proofs.ECC
+open BtcVerif BtcVerif.Model BtcVerif.Model.ECC BtcVerif.Proofs BtcVerif.Proofs.ECC BtcVerif.Model.Signer
 
 variable {C : CurveOps}
 
@@ -61,6 +62,86 @@ theorem schnorr_sig_form (H : CurveAbs C) {S : SigOps} {priv msg aux sig : Bytes
   simp only at h
   rw [h]; simp
 
+/-! ### transaction-signing helpers (model: `Proofs/ECCSigner.lean`)
+
+  `Hh : HashOps` holds the two signature-hash functions and HASH160, uninterpreted: the statements
+  name the digest that is signed — the legacy / BIP143 hash of the PRE-state `tx` at the designated
+  input with the P2PKH script code of the key (correctness of those hashes is C03). -/
+
+/-- P2PKH (compressed and uncompressed): the input index is in range, version / outputs / locktime /
+    witnesses and every other input are unchanged, the designated input keeps its outpoint and
+    sequence, and its scriptSig is `push(sig) ‖ push(pub)` with `sig = SignSigHash(legacy(tx, n,
+    P2PKH(pub), ht), priv, ht)` -/
+theorem signP2PKH_frame_form {S : SigOps} {Hh : HashOps} {tx tx' : Tx} {nInput : Int} {priv : Bytes} {ht : Nat}
+    {compressed : Bool} (h : signInputP2PKH C S Hh tx nInput priv ht compressed = .ok tx') :
+    0 ≤ nInput ∧ nInput.toNat < tx.inputs.length ∧
+    tx'.version = tx.version ∧ tx'.outputs = tx.outputs ∧ tx'.locktime = tx.locktime ∧
+    tx'.witnesses = tx.witnesses ∧ InputsFrame tx.inputs tx'.inputs nInput.toNat ∧
+    ∃ pub sc dig sig ps pp,
+      getPublicKey C priv compressed = .ok pub ∧ makeP2PKHFromPublicKey Hh.hash160 pub = .ok sc ∧
+      Hh.legacy tx nInput.toNat sc ht = .ok dig ∧ signSigHash C S dig priv ht = .ok sig ∧
+      pushData sig = .ok ps ∧ pushData pub = .ok pp ∧
+      ∀ a, tx.inputs[nInput.toNat]? = some a → tx'.inputs[nInput.toNat]? = some { a with script := ps ++ pp } :=
+  Signer.signP2PKH_frame_form C S Hh h
+
+/-- P2WPKH: as above with an emptied scriptSig and the witness `[sig, pub]`; the witness list gets
+    one entry per input and every other witness is kept (`installWitness_frame`) -/
+theorem signP2WPKH_frame_form {S : SigOps} {Hh : HashOps} {tx tx' : Tx} {nInput : Int} {priv : Bytes}
+    {ht value : Nat} (h : signInputP2WPKH C S Hh tx nInput priv ht value = .ok tx') :
+    0 ≤ nInput ∧ nInput.toNat < tx.inputs.length ∧
+    tx'.version = tx.version ∧ tx'.outputs = tx.outputs ∧ tx'.locktime = tx.locktime ∧
+    InputsFrame tx.inputs tx'.inputs nInput.toNat ∧
+    ∃ pub sc dig sig ws,
+      getPublicKeyCompressed C priv = .ok pub ∧ makeP2PKHFromPublicKey Hh.hash160 pub = .ok sc ∧
+      Hh.bip143 tx nInput.toNat sc ht value = .ok dig ∧ signSigHash C S dig priv ht = .ok sig ∧
+      installWitness tx nInput.toNat [sig, pub] = .ok ws ∧ tx'.witnesses = some ws ∧
+      ∀ a, tx.inputs[nInput.toNat]? = some a → tx'.inputs[nInput.toNat]? = some { a with script := [] } :=
+  Signer.signP2WPKH_frame_form C S Hh h
+
+/-- P2SH-nested P2WPKH: as P2WPKH with scriptSig = push(`00 14 hash160(pub)`) -/
+theorem signNested_frame_form {S : SigOps} {Hh : HashOps} {tx tx' : Tx} {nInput : Int} {priv : Bytes}
+    {ht value : Nat} (h : signInputNested C S Hh tx nInput priv ht value = .ok tx') :
+    0 ≤ nInput ∧ nInput.toNat < tx.inputs.length ∧
+    tx'.version = tx.version ∧ tx'.outputs = tx.outputs ∧ tx'.locktime = tx.locktime ∧
+    InputsFrame tx.inputs tx'.inputs nInput.toNat ∧
+    ∃ pub sc dig sig ws prog redeem,
+      getPublicKeyCompressed C priv = .ok pub ∧ makeP2PKH (Hh.hash160 pub) = .ok sc ∧
+      Hh.bip143 tx nInput.toNat sc ht value = .ok dig ∧ signSigHash C S dig priv ht = .ok sig ∧
+      installWitness tx nInput.toNat [sig, pub] = .ok ws ∧ tx'.witnesses = some ws ∧
+      makeP2WPKH (Hh.hash160 pub) = .ok prog ∧ pushData prog = .ok redeem ∧
+      ∀ a, tx.inputs[nInput.toNat]? = some a → tx'.inputs[nInput.toNat]? = some { a with script := redeem } :=
+  Signer.signNested_frame_form C S Hh h
+
+/-- the witness list after segwit signing: one per input, `[sig, pub]` at the designated input, every
+    other input's witness as before (empty when the transaction had no witnesses) -/
+theorem witness_frame {tx : Tx} {n : Nat} {w : Witness} {ws : List Witness}
+    (h : installWitness tx n w = .ok ws) (hn : n < tx.inputs.length) :
+    tx.inputs.length ≤ ws.length ∧ ws[n]? = some w ∧
+      ∀ i, i ≠ n → ws[i]? = (match tx.witnesses with
+                              | none => if i < tx.inputs.length then some [] else none
+                              | some old => old[i]?) := installWitness_frame h hn
+
+/-- signing a well-formed transaction (C01's domain) gives a well-formed transaction, which
+    serialises and re-parses to itself (by C01), leaving following bytes unread -/
+theorem signed_reparses_p2pkh (hn2 : C.n ≤ 2 ^ 256) {S : SigOps} {Hh : HashOps} {tx tx' : Tx} {nInput : Int}
+    {priv : Bytes} {ht : Nat} {compressed : Bool} (hwf : WFTx tx)
+    (h : signInputP2PKH C S Hh tx nInput priv ht compressed = .ok tx') (rest : Bytes) :
+    WFTx tx' ∧ ∃ bs, encTx tx' true = .ok bs ∧ decTx (bs ++ rest) = .ok (tx', rest) :=
+  signP2PKH_reparses hn2 hwf h rest
+
+theorem signed_reparses_p2wpkh (hn2 : C.n ≤ 2 ^ 256) {S : SigOps} {Hh : HashOps} {tx tx' : Tx} {nInput : Int}
+    {priv : Bytes} {ht value : Nat} (hwf : WFTx tx)
+    (h : signInputP2WPKH C S Hh tx nInput priv ht value = .ok tx') (rest : Bytes) :
+    WFTx tx' ∧ ∃ bs, encTx tx' true = .ok bs ∧ decTx (bs ++ rest) = .ok (tx', rest) :=
+  signP2WPKH_reparses hn2 hwf h rest
+
+theorem signed_reparses_nested (hn2 : C.n ≤ 2 ^ 256) {S : SigOps} {Hh : HashOps}
+    (hh : ∀ b, (Hh.hash160 b).length ≤ 999000) {tx tx' : Tx} {nInput : Int}
+    {priv : Bytes} {ht value : Nat} (hwf : WFTx tx)
+    (h : signInputNested C S Hh tx nInput priv ht value = .ok tx') (rest : Bytes) :
+    WFTx tx' ∧ ∃ bs, encTx tx' true = .ok bs ∧ decTx (bs ++ rest) = .ok (tx', rest) :=
+  signNested_reparses hn2 hh hwf h rest
+
 /-! ### non-vacuity -/
 
 example : CurveAbs Toy.ops := Toy.curveAbs
@@ -72,5 +153,32 @@ example : signECDSA Toy.ops ⟨fun _ _ => 7, id, id, id⟩ (List.replicate 31 0 
 /-- … and it verifies under the compressed public key `03 ‖ x(5·G)`, as `ecdsa_sign_verify` says -/
 example : verifyECDSA Toy.ops (Spec.ECC.encodeCompressed (Toy.tbl 5)) (List.replicate 31 0 ++ [9]) 25 3 = .ok true := by
   decide
+
+/-- the signing helpers succeed on a concrete two-input transaction over the toy curve (constant
+    digest and nonce), so the hypotheses `… = .ok tx'` of the frame theorems are satisfiable -/
+def toyHash : HashOps :=
+  ⟨fun _ _ _ _ => .ok (List.replicate 31 0 ++ [9]), fun _ _ _ _ _ => .ok (List.replicate 31 0 ++ [9]),
+   fun b => b.take 20⟩
+
+def toyTx : Tx :=
+  { version := 2,
+    inputs := [⟨⟨List.replicate 32 0xaa, 1⟩, [0x51], 0xffffffff⟩, ⟨⟨List.replicate 32 0xbb, 0⟩, [], 0⟩],
+    outputs := [⟨5000, [0x6a]⟩], witnesses := none, locktime := 0 }
+
+example : (signInputP2PKH Toy.ops ⟨fun _ _ => 7, id, id, id⟩ toyHash toyTx 1 (List.replicate 31 0 ++ [5]) 1 true).isOk
+    = true := by decide
+example : (signInputP2WPKH Toy.ops ⟨fun _ _ => 7, id, id, id⟩ toyHash toyTx 0 (List.replicate 31 0 ++ [5]) 1 1000).isOk
+    = true := by decide
+example : (signInputNested Toy.ops ⟨fun _ _ => 7, id, id, id⟩ toyHash toyTx 0 (List.replicate 31 0 ++ [5]) 0x81 1000).isOk
+    = true := by decide
+example : WFTx toyTx := by
+  refine ⟨by decide, by decide, by decide, by decide, by decide, ?_, ?_, ?_⟩
+  · intro i hi
+    simp only [toyTx, List.mem_cons, List.not_mem_nil, or_false] at hi
+    rcases hi with rfl | rfl <;> exact ⟨⟨by decide, by decide⟩, by decide, by decide⟩
+  · intro o ho
+    simp only [toyTx, List.mem_cons, List.not_mem_nil, or_false] at ho
+    subst ho; exact ⟨by decide, by decide⟩
+  · intro ws h; simp [toyTx] at h
 
 end BtcVerif.Props.C04
